@@ -13,24 +13,44 @@ def _kv(s):
     return dict(f.split("=", 1) for f in s.split(" ") if "=" in f)
 
 
+# Props modules of C01 beyond NGF.Props.C01 (each: obligations in every tier, leanchecker in the thorough tier).
+# Add further modules HERE (the coordinator hooks other builders' C01 modules in through this list).
+EXTRA_PROPS = [
+    "NGF.Props.C01Handler",    # handler capture step (objectFilters / parseAndCaptureEvent) over the store model
+    "NGF.Props.C01Footprint",  # relevance/watch soundness per dependent kind (footprint frames)
+    "NGF.Props.C01Refs",       # b-c06: Service relevance over the pipeline model
+]
+
+
 def run(ctx):
     ctx.prepare()
     ctx.log(f"prepared at {time.time() - ctx.t0:.1f}s")
+    # mechanisms this property assumes and sibling properties check (run alongside, joined before finish)
+    from concurrent.futures import ThreadPoolExecutor
+    dep_pool = ThreadPoolExecutor(max_workers=2)
+    deps = [dep_pool.submit(ctx.dependency, "C10", "every delivered event reaches the handler exactly once and in order; "
+                            "the first batch is complete"),
+            dep_pool.submit(ctx.dependency, "C11", "the configuration handed to the file manager is what is on disk afterwards")]
     ctx.obligations("NGF.Props.C01")
-    ctx.obligations("NGF.Props.C01Footprint")
+    for mod in EXTRA_PROPS:
+        ctx.obligations(mod)
     ctx.log(f"obligations at {time.time() - ctx.t0:.1f}s")
     if ctx.tier == "thorough":
         ctx.leanchecker("NGF.Props.C01")
-        ctx.leanchecker("NGF.Props.C01Footprint")
+        for mod in EXTRA_PROPS:
+            ctx.leanchecker(mod)
 
     watch = ctx.facts.get("StoreFacts.watchSpec")
     if not watch:
         ctx.broken("translator produced no watch table (registerControllers not understood)", kind="obligation")
+    nnfilter = ctx.facts.get("StoreFacts.watchNNFilterSpec")
+    if nnfilter is None:
+        ctx.broken("translator produced no namespaced-name filter table (registerControllers not understood)", kind="obligation")
     n, maxops, maxfail, chunks = (150, 26, 10, 1) if ctx.tier == "quick" else (1100, 60, 120, 8)
 
     runs = []
     corpus = sorted(glob.glob(os.path.join(vcheck.VERIF, "corpus", "C01", "*.json")))
-    wargs = ["-watch", watch] if watch else []
+    wargs = (["-watch", watch] if watch else []) + (["-nnfilter", nnfilter] if nnfilter else [])
     if corpus:
         runs.append(("corpus", ctx.harness(["-replay", ",".join(corpus), "-maxfail", 1000] + wargs)))
     def gen(i):
@@ -49,6 +69,7 @@ def run(ctx):
     watch_in, watch_obs = [], []
     replays, hstats, tags = {}, [], collections.Counter()
     inconclusive, panics = collections.Counter(), collections.Counter()
+    capture_panics = []
     for src, lines in runs:
         for l in lines or []:
             typ, _, rest = l.partition(" ")
@@ -83,6 +104,10 @@ def run(ctx):
                 inconclusive[body[:80]] += 1
             elif typ == "P":
                 panics[body] += 1
+            elif typ == "K":
+                # the real handler crashed while capturing a delivered event: the controller never converges again
+                doc = json.loads(body)
+                capture_panics.append((hid, doc))
 
     ctx.log(f"harness done at {time.time() - ctx.t0:.1f}s")
     # the property itself, evaluated by the Lean judge on what the real controller did
@@ -107,6 +132,16 @@ def run(ctx):
                     {"history": replays.get(hid), "judge_verdict": v, "judge_input": inp[:4000],
                      "how_to_rerun": "save 'history' to a file and run harness cmd c01 -replay <file>"})
 
+    seen_k = set()
+    for hid, doc in capture_panics:
+        if doc["signature"] in seen_k:
+            continue
+        seen_k.add(doc["signature"])
+        ctx.finding(f"C01:{doc['signature']}",
+                    "the real event handler panics while capturing a delivered event (before Process): the controller "
+                    f"stops applying configuration ({doc['story'][-1][:200]})",
+                    {"history": doc, "how_to_rerun": "save 'history' to a file and run harness cmd c01 -replay <file>"})
+
     # correspondence: the Lean store model replays the same batches
     outs = ctx.driver("model", model_in)
     diffs = 0
@@ -127,12 +162,15 @@ def run(ctx):
             ctx.broken("footprint model could not decode a graph core", replay={"core": m[:3000]})
             continue
         real, mod = _sets(o), _sets(out)
-        bad = [k for k in ("svcs", "nss", "cms") if real[k] != mod[k]]
+        bad = [k for k in ("svcs", "nss", "cms", "nprefs", "polrel", "polgraph") if real.get(k) != mod.get(k)]
         if not real["secs"] <= mod["seccand"] or not real["resolved"] <= real["secs"]:
             bad.append("secs")
-        for k in ("svcs", "nss", "cms", "secs"):
-            fstats[k + "_nonempty"] += bool(real[k])
+        for k in ("svcs", "nss", "cms", "secs", "nprefs", "polrel", "polgraph", "secmissing", "cmmissing"):
+            fstats[k + "_nonempty"] += bool(real.get(k))
         fstats["scenarios_with_service_read_but_not_referenced"] += bool(mod["unref"])
+        # graphs on which the weakened variants (refuted in NGF.Props.C01Footprint) would reference less than the code
+        fstats["namespace_referenced_through_invalid_listener_only"] += bool(mod["nss"] - mod["nssvalid"])
+        fstats["policy_relevant_but_not_by_first_targetref"] += bool(mod["polrel"] - mod["polfirst"])
         if bad:
             fdiffs += 1
             if fdiffs <= 3:
@@ -154,9 +192,13 @@ def run(ctx):
                       if int(h.get("filtered", 0)) + int(h.get("dropped", 0)) > 0 and int(h.get("relevant", 0)) > 0})
     disp = collections.Counter()
     for h in hstats:
-        for k in ("filtered", "dropped", "relevant", "nondet", "nondetskip", "cps", "batches", "muts"):
+        for k in ("filtered", "dropped", "relevant", "swallowed", "control", "nondet", "nondetskip", "cps", "batches", "muts"):
             disp[k] += int(h.get(k, 0))
     sizes = collections.Counter(min(int(h.get("muts", 0)) // 5, 12) for h in hstats)
+    for d in deps:
+        d.result()
+    dep_pool.shutdown()
+    ctx.log(f"dependencies done at {time.time() - ctx.t0:.1f}s")
     ctx.finish({
         "evaluations": len(judge_in),
         "distinct_nontrivial": nontrivial,
@@ -175,8 +217,15 @@ def run(ctx):
         "service_watch_diffs": wdiffs,
         "histories": len(hstats),
         "corpus_histories": len(corpus),
+        # handler layer (objectFilters): events of the two special objects handed to HandleEventBatch, by
+        # <Kind>-<u|d>-<fwd|kept>; histories in which the special objects take part in ordinary roles
+        "handler_filter_events": {k[len("filter:"):]: v for k, v in sorted(tags.items()) if k.startswith("filter:")},
+        "histories_with_special_objects": {k[len("special:"):]: v for k, v in sorted(tags.items()) if k.startswith("special:")},
+        "directed_special_histories": len([c for c in corpus if "directed-front-svc" in c or "directed-control-config" in c
+                                           or "named-like-front-svc" in c]),
         "totals": dict(disp),
         "panics_in_code_under_test": dict(panics),
+        "panics_while_capturing_events": len(capture_panics),
         "mutations_per_history_histogram_by_5": {str(k): v for k, v in sorted(sizes.items())},
         "generator_tags": dict(sorted(tags.items())),
         "failing_histories": {h: f[0][1] for h, f in fails.items()},
